@@ -140,6 +140,15 @@ pub struct TreeCache {
 impl TreeCache {
     pub fn new(sentinel: Option<NodePtr>) -> Self {
         let mut rng = rand::rng();
+        #[cfg(feature = "verif-hooks")]
+        if let Some(salt) = crate::verif::salt() {
+            return Self {
+                sentinel_node: sentinel,
+                atom_lookup: HashMap::with_hasher(RandomState::default()),
+                salt: salt.to_le_bytes(),
+                ..Default::default()
+            };
+        }
         Self {
             sentinel_node: sentinel,
             atom_lookup: HashMap::with_hasher(RandomState::default()),
